@@ -118,7 +118,7 @@ func run(c *Case) {
 	}
 	// settle waits until caller t is finished, parked in its loader, or waiting on another loader
 	settle := func(cl2 *caller, waitsBefore float64) string {
-		deadline := time.After(5 * time.Second)
+		deadline := time.After(90 * time.Second)
 		for {
 			select {
 			case <-cl2.done:
@@ -246,7 +246,7 @@ func run(c *Case) {
 				})
 			}()
 			if st := settle(x, before); st == "stuck" {
-				fail(i, "caller neither returned, nor entered its loader, nor waited within 5s (deadlock?)")
+				fail(i, "caller neither returned, nor entered its loader, nor waited within 90s (deadlock?)")
 				return
 			} else if st == "done" && !finish(x, i) {
 				return
@@ -315,17 +315,20 @@ func run(c *Case) {
 			return
 		}
 	}
-	// drain: release every parked loader with success and join
-	for round := 0; round < 5; round++ {
-		any := false
-		for _, x := range callers {
+	// drain: release every parked loader with success and join. Waiters wake up when "their" loader ends and may
+	// then enter a loader of their own - whenever the scheduler lets them (the machine may be heavily loaded), so
+	// the drain goes on until every caller has returned; only a caller that is still inside after 90 s is a deadlock
+	drainDeadline := time.Now().Add(90 * time.Second)
+	for {
+		running := false
+		for t, x := range callers {
 			if !x.running {
 				continue
 			}
+			running = true
 			if x.inLoad {
 				x.inLoad = false
 				x.gate <- outcome{"ok"}
-				any = true
 				continue
 			}
 			select {
@@ -333,24 +336,15 @@ func run(c *Case) {
 				x.running = false
 			case <-x.entered:
 				x.gate <- outcome{"ok"}
-				any = true
-			case <-time.After(20 * time.Millisecond):
-				any = true
+			case <-time.After(2 * time.Millisecond):
+				if time.Now().After(drainDeadline) {
+					fail(len(c.Hist), fmt.Sprintf("caller %d never returned after all loaders were released", t))
+					return
+				}
 			}
 		}
-		if !any {
+		if !running {
 			break
-		}
-	}
-	for t, x := range callers {
-		if x.running {
-			select {
-			case <-x.done:
-				x.running = false
-			case <-time.After(3 * time.Second):
-				fail(len(c.Hist), fmt.Sprintf("caller %d never returned after all loaders were released", t))
-				return
-			}
 		}
 	}
 	checkInv(len(c.Hist), false)
